@@ -58,6 +58,63 @@ func runMergeTrace(n int, steps []mergeStep) {
 		hs[i] = children[i]
 	}
 	h := mocrelay.NewMergeHandler(hs...)
+	// An EARLIER connection on the same handler that ends with requests half answered: it sends the first EVENT and
+	// the first COUNT of the trace, child 0 answers them (accepting / count 5), and the connection goes away.  A
+	// merged handler serves many connections; nothing of this one may show in the session under test.
+	if mergePrelude {
+		pctx, pcancel := context.WithCancel(context.Background())
+		psend := make(chan mocrelay.ServerMsg, 16)
+		precv := make(chan mocrelay.ClientMsg)
+		pdone := make(chan error, 1)
+		go func() { pdone <- h.ServeNostr(pctx, psend, precv) }()
+		var pe *mocrelay.ClientEventMsg
+		var pc *mocrelay.ClientCountMsg
+		for _, st := range steps {
+			if st.K != "client" {
+				continue
+			}
+			if m, ok := st.C.(*mocrelay.ClientEventMsg); ok && pe == nil {
+				pe = m
+			}
+			if m, ok := st.C.(*mocrelay.ClientCountMsg); ok && pc == nil {
+				pc = m
+			}
+		}
+		feed := func(m mocrelay.ClientMsg, reply mocrelay.ServerMsg) {
+			select {
+			case precv <- m:
+			case <-time.After(5 * time.Second):
+				return
+			}
+			for i := 0; i < n; i++ {
+				select {
+				case <-children[i].got:
+				case <-time.After(5 * time.Second):
+				}
+			}
+			select {
+			case children[0].emit <- reply:
+			case <-time.After(5 * time.Second):
+			}
+		}
+		if pe != nil {
+			feed(pe, mocrelay.NewServerOKMsg(pe.Event.ID, true, "", ""))
+		}
+		if pc != nil {
+			feed(pc, mocrelay.NewServerCountMsg(pc.SubscriptionID, 5, nil))
+		}
+		time.Sleep(2 * time.Millisecond)
+		pcancel()
+		select {
+		case <-pdone:
+		case <-time.After(5 * time.Second):
+		}
+		for i := 0; i < n; i++ { // nothing of the earlier connection is left in the scripted children
+			for len(children[i].got) > 0 {
+				<-children[i].got
+			}
+		}
+	}
 	ctx, cancel := context.WithCancel(context.Background())
 	send := make(chan mocrelay.ServerMsg)
 	recv := make(chan mocrelay.ClientMsg)
@@ -138,6 +195,9 @@ func runMergeTrace(n int, steps []mergeStep) {
 	case <-time.After(5 * time.Second):
 	}
 	line := M{"op": "merge", "n": n, "steps": outs}
+	if mergePrelude {
+		line["prelude"] = true
+	}
 	if stalled {
 		line["stalled"] = true
 		mergeStalls++
@@ -147,6 +207,10 @@ func runMergeTrace(n int, steps []mergeStep) {
 
 // traces of this run in which a step ran into its 10 s limit: after a few the sweep stops
 var mergeStalls int
+
+// whether the next trace is preceded by an earlier connection on the same merged handler (set by the generator and
+// recorded in the line, so that a replay does the same)
+var mergePrelude bool
 
 // ---- trace generator: respects causality (a child speaks about a request only after the client sent it)
 
@@ -350,7 +414,9 @@ func init() {
 				g := &EvGen{r: r}
 				for i := 0; i < n && mergeStalls < 4; i++ {
 					k, steps := genMergeTrace(r, g, dup)
+					mergePrelude = r.P(25)
 					runMergeTrace(k, steps)
+					mergePrelude = false
 				}
 			},
 			replay: func(lines []replayLine) {
@@ -368,7 +434,9 @@ func init() {
 							steps = append(steps, mergeStep{K: "child", I: int(jnum(m["i"])), S: smsgFromJ(m["msg"])})
 						}
 					}
+					mergePrelude, _ = l["prelude"].(bool)
 					runMergeTrace(int(jnum(l["n"])), steps)
+					mergePrelude = false
 				}
 			},
 		}
